@@ -184,12 +184,14 @@ Fixpoint accepted_of (body : str) (l : list (str * bool)) : bool :=
   | (b, acc) :: l' => if str_eqb b body then acc else accepted_of body l'
   end.
 
-Record csess := mk_csess { cx_imap : bool; cx_d : str; cx_u : str; cx_p : str; cx_reply : reply; cx_bound : option (str * str) }.
+(** [cx_req]: the session is one that asks the backend (all but the SASL LOGIN
+    mechanism, which raven answers without a verification and never with OK) *)
+Record csess := mk_csess { cx_imap : bool; cx_req : bool; cx_d : str; cx_u : str; cx_p : str; cx_reply : reply; cx_bound : option (str * str) }.
 Record ccase := mk_ccase { cc_sessions : list csess; cc_bodies : list (str * bool) }.
 
 Definition cx_body (x : csess) : str := build_body (address_of (cx_d x) (cx_u x)) (cx_p x).
 Definition csess_ok (bodies : list (str * bool)) (x : csess) : bool :=
-  let acc := accepted_of (cx_body x) bodies in
+  let acc := cx_req x && accepted_of (cx_body x) bodies in
   Bool.eqb (reply_eqb (cx_reply x) R_OK) acc
   && (if cx_imap x then
         match cx_reply x, cx_bound x with
@@ -201,6 +203,6 @@ Definition csess_ok (bodies : list (str * bool)) (x : csess) : bool :=
       else true).
 Definition ccase_eval (c : ccase) : res :=
   (true,
-   perm_eqb (map fst (cc_bodies c)) (map cx_body (cc_sessions c))
+   perm_eqb (map fst (cc_bodies c)) (map cx_body (filter cx_req (cc_sessions c)))
    && forallb (csess_ok (cc_bodies c)) (cc_sessions c),
    0).
